@@ -105,6 +105,9 @@ let () = iter_lines (fun line ->
         print_string (show_outcome (run_ref (nat_of_int (int_of_string fu)) (prog_of (parse_sx sx))) ^ "\n")
     | "natl" | "natr" -> let (fu, sx) = split2 rest in
         print_string (show_nat (run_nat (if cmd = "natl" then LtoR else RtoL) (nat_of_int (int_of_string fu)) (prog_of (parse_sx sx))) ^ "\n")
+    | "se" -> let (_, sx) = split2 rest in
+        (* se <ignored> <prog-sexp> : NatOrder.se_program -- every call has at most one argument with a call or / % *)
+        print_string ((if se_program (prog_of (parse_sx sx)) then "1" else "0") ^ "\n")
     | "nc" ->
         (* nc <fuel> (env (x int|bool v)...) <expr> : the repository's eval_fn on the embedded expression, and the common-domain evaluator *)
         let (fu, r) = split2 rest in
